@@ -1,10 +1,10 @@
 #!/bin/bash
 # tools/keep_seed.sh <ID> <name> "<needs>" "<caught by>" — store a confirmed seeded change under /verif/seeded/<name>/
 ID="$1"; NAME="$2"; NEEDS="$3"; CAUGHT="$4"
-D=/verif/seeded/$NAME; mkdir -p $D
-cp /tmp/seed/$ID/patch.diff $D/patch.diff
-cp /tmp/seed/$ID/seed_demo.rs $D/seed_demo.rs 2>/dev/null || cp /tmp/seed/$ID/wt/tests/seed_demo.rs $D/seed_demo.rs
-cp /tmp/seed/$ID/README.md $D/AGENT_README.md 2>/dev/null
+SR="${SEEDROOT:-/tmp/seed}"; D=/verif/seeded/$NAME; mkdir -p $D
+cp $SR/$ID/patch.diff $D/patch.diff
+cp $SR/$ID/seed_demo.rs $D/seed_demo.rs 2>/dev/null || cp $SR/$ID/wt/tests/seed_demo.rs $D/seed_demo.rs
+cp $SR/$ID/README.md $D/AGENT_README.md 2>/dev/null
 python3 - "$ID" "$NAME" "$NEEDS" "$CAUGHT" <<'PY'
 import json,sys
 id,name,needs,caught=sys.argv[1:5]
